@@ -170,22 +170,36 @@ def apply(st: State, op: list) -> None:
         elif kind == 'iter_class_grow':
             # nested mutation: while visiting original members add entities to the same index set; while visiting
             # an added member change the set again (what nested instance expansion does)
+            # (what is done to a member depends on the member only, never on the order the set happens to be visited in:
+            # entities hash by identity, so that order differs between processes)
             _, v, c = op
-            n = 0
+            hidx = {id(e): i for i, e in enumerate(st.h)}
+            again = False
             for e in st.vmfs[v].by_class[c]:
-                if n < 2:
-                    cp = e.copy()
-                    st.vmfs[v].add_ent(cp)
-                    n += 1
+                i = hidx.get(id(e))
+                if i is None:
+                    # a member that was added during this very iteration (the set's second phase): change the set once more
+                    if not again:
+                        again = True
+                        st.vmfs[v].create_ent(c, targetname='g2')
+                    continue
+                if i % 2 == 0:
+                    st.vmfs[v].create_ent(c, targetname='g')
                 else:
                     e.remove()
         elif kind == 'iter_target_grow':
             _, v, nm = op
-            n = 0
+            hidx = {id(e): i for i, e in enumerate(st.h)}
+            again = False
             for e in st.vmfs[v].by_target[nm]:
-                if n < 2:
+                i = hidx.get(id(e))
+                if i is None:
+                    if not again:
+                        again = True
+                        st.vmfs[v].create_ent('b', targetname=nm.upper() if nm else 'N')
+                    continue
+                if i % 2 == 0:
                     st.vmfs[v].create_ent('b', targetname=nm.upper() if nm else 'N')
-                    n += 1
                 else:
                     e['targetname'] = 'm'
         elif kind == 'iter_search_remove':
